@@ -28,6 +28,7 @@ const (
 	nExpSeq = "ExpandSequence"
 	nSeq    = "CallSequence"
 	nReset  = "ResetSequence"
+	nSet    = "ObjectSetters"
 )
 
 // ---------------------------------------------------------------- invokers
@@ -134,6 +135,59 @@ func primed(f *run.Fn) *run.Fn {
 	return &run.Fn{Name: f.Name, Timeout: f.Timeout, Invoke: func(a []w.Val) w.Val {
 		prime()
 		return f.Invoke(a)
+	}}
+}
+
+// ObjectSetters: a script of SetX / SetY / SetZ / SetZoom / ResetExtendedSpatialID applied to one fresh object; after each step the
+// observation is [error?; ID(); FieldParams(); [HZoom(); X(); Y(); VZoom(); Z()]]
+func fnSetters() *run.Fn {
+	return &run.Fn{Name: nSet, Invoke: func(a []w.Val) w.Val {
+		o := &object.ExtendedSpatialID{}
+		var out w.List = w.List{}
+		for _, c := range w.AsList(a[0]) {
+			cl, ok := c.(w.List)
+			if !ok || len(cl) < 2 {
+				return w.S("ill-formed script")
+			}
+			name, ok := cl[0].(w.Str)
+			if !ok {
+				return w.S("ill-formed script")
+			}
+			isErr := false
+			switch {
+			case name == "Reset" && len(cl) == 2:
+				sv, ok := cl[1].(w.Str)
+				if !ok {
+					return w.S("ill-formed script")
+				}
+				isErr = o.ResetExtendedSpatialID(string(sv)) != nil
+			case name == "Zoom" && len(cl) == 3:
+				if _, ok := cl[1].(w.Int); !ok {
+					return w.S("ill-formed script")
+				}
+				if _, ok := cl[2].(w.Int); !ok {
+					return w.S("ill-formed script")
+				}
+				o.SetZoom(w.AsInt(cl[1]), w.AsInt(cl[2]))
+			case (name == "X" || name == "Y" || name == "Z") && len(cl) == 2:
+				if _, ok := cl[1].(w.Int); !ok {
+					return w.S("ill-formed script")
+				}
+				switch name {
+				case "X":
+					o.SetX(w.AsInt(cl[1]))
+				case "Y":
+					o.SetY(w.AsInt(cl[1]))
+				default:
+					o.SetZ(w.AsInt(cl[1]))
+				}
+			default:
+				return w.S("ill-formed script")
+			}
+			out = append(out, w.L(w.B(isErr), w.S(o.ID()), w.Ints(o.FieldParams()),
+				w.L(w.I(o.HZoom()), w.I(o.X()), w.I(o.Y()), w.I(o.VZoom()), w.I(o.Z()))))
+		}
+		return out
 	}}
 }
 
@@ -372,6 +426,55 @@ func int64Edge(g *Gen) int64 {
 	return g.Int63n(2001) - 1000
 }
 
+// wideEID: horizontal zoom 32..35 with x and/or y >= 2^31 (beyond 32 bits), vertical index near the ends of the grid (+-2^35) or of
+// int64 (+-2^62, +-2^63); the object does not check the grid, so the off-grid indices are legitimate for parse/print/setters
+func wideIndex(g *Gen, h int64) int64 {
+	top := int64(1) << uint(h)
+	lo := int64(1) << 31
+	switch g.Intn(6) {
+	case 0:
+		return top - 1
+	case 1:
+		return lo
+	case 2:
+		return lo + g.Int63n(16)
+	case 3:
+		return int64(1)<<32 + g.Int63n(16)
+	}
+	return lo + g.Int63n(top-lo)
+}
+func wideF(g *Gen) (int64, int64) { // (vZoom, f)
+	p35, p62 := int64(1)<<35, int64(1)<<62
+	switch g.Intn(8) {
+	case 0:
+		return 35, -p35
+	case 1:
+		return 35, p35 - 1
+	case 2:
+		return 35, -p35 + g.Int63n(8)
+	case 3:
+		return g.Zoom(), g.Pick(p62, -p62, p62-1, -p62+1, p62+g.Int63n(1000), -p62-g.Int63n(1000))
+	case 4:
+		return g.Zoom(), g.Pick(math.MaxInt64, math.MinInt64, -p35-1, p35)
+	case 5:
+		return 35, g.Pick(-7, -1, 3, 0)
+	}
+	v := g.Zoom()
+	return v, g.VIndex(v)
+}
+func wideEID(g *Gen) eid {
+	h := 32 + g.Int63n(4)
+	x, y := wideIndex(g, h), wideIndex(g, h)
+	switch g.Intn(4) {
+	case 0:
+		y = g.HIndex(h) % (1 << 20)
+	case 1:
+		x = g.HIndex(h) % (1 << 20)
+	}
+	v, f := wideF(g)
+	return eid{h, x, y, v, f}
+}
+
 // an extended ID whose five fields range over all of int64 (the object does not check the grid)
 func anyInt64EID(g *Gen) eid {
 	return eid{int64Edge(g), int64Edge(g), int64Edge(g), int64Edge(g), int64Edge(g)}
@@ -427,9 +530,12 @@ func caseParsePrint(g *Gen) run.Case {
 	switch {
 	case g.Chance(0.06):
 		return run.Case{Prop: "C10", Fn: nPP, Args: []w.Val{w.S(malformedFor(g, 5))}, Tags: []string{"malformed"}}
-	case g.Chance(0.3):
+	case g.Chance(0.2):
 		e := anyInt64EID(g)
 		return run.Case{Prop: "C10", Fn: nPP, Args: []w.Val{w.S(e.str(g, false))}, Tags: []string{"int64-fields"}}
+	case g.Chance(0.35):
+		e := wideEID(g)
+		return run.Case{Prop: "C10", Fn: nPP, Args: []w.Val{w.S(e.str(g, false))}, Tags: append(zoomTags(e.h, e.v), "wide-fields(x|y>=2^31)")}
 	}
 	h, v := zoomPair(g, 35)
 	return run.Case{Prop: "C10", Fn: nPP, Args: []w.Val{w.S(validEID(g, h, v).str(g, false))}, Tags: zoomTags(h, v)}
@@ -524,8 +630,13 @@ func caseResetSeq(g *Gen) run.Case {
 	h, v := zoomPair(g, 35)
 	e := validEID(g, h, v)
 	var l []string
+	if g.Chance(0.4) {
+		e = wideEID(g)
+	}
 	for i := 0; i < n; i++ {
-		switch g.Intn(7) {
+		switch g.Intn(9) {
+		case 7, 8:
+			e = wideEID(g)
 		case 0:
 			e = anyInt64EID(g)
 		case 1:
@@ -550,6 +661,8 @@ func caseResetSeq(g *Gen) run.Case {
 		case 5:
 			hh, vv := zoomPair(g, 35)
 			e = validEID(g, hh, vv)
+		case 6:
+			e = wideEID(g)
 		}
 		if g.Chance(0.12) {
 			l = append(l, malformedFor(g, 5))
@@ -558,6 +671,65 @@ func caseResetSeq(g *Gen) run.Case {
 		}
 	}
 	return run.Case{Prop: "C10", Fn: nReset, Args: []w.Val{strsVal(l)}, Tags: []string{"sequence", "reset-sequence", Tag("seqlen=%d", n)}}
+}
+
+// a script of 3..8 setter calls on one object: every setter at least likely once, values beyond 32 bits, the same setter twice with
+// different values, a Reset in between (sometimes malformed), zero after non-zero
+func setterVal(g *Gen, wide eid, which int) int64 {
+	switch g.Intn(6) {
+	case 0:
+		return 0
+	case 1:
+		return int64Edge(g)
+	case 2:
+		return g.Int63n(2001) - 1000
+	}
+	switch which {
+	case 0:
+		return wide.x
+	case 1:
+		return wide.y
+	}
+	return wide.f
+}
+func caseSetters(g *Gen) run.Case {
+	n := 3 + g.Intn(6)
+	var cmds w.List
+	kinds := map[string]bool{}
+	for i := 0; i < n; i++ {
+		wd := wideEID(g)
+		switch g.Intn(9) {
+		case 0, 1:
+			cmds = append(cmds, w.L(w.S("X"), w.I(setterVal(g, wd, 0))))
+			kinds["X"] = true
+		case 2, 3:
+			cmds = append(cmds, w.L(w.S("Y"), w.I(setterVal(g, wd, 1))))
+			kinds["Y"] = true
+		case 4, 5:
+			cmds = append(cmds, w.L(w.S("Z"), w.I(setterVal(g, wd, 2))))
+			kinds["Z"] = true
+		case 6, 7:
+			h, v := wd.h, wd.v
+			if g.Chance(0.3) {
+				h, v = g.Zoom(), g.Zoom()
+			} else if g.Chance(0.1) {
+				h, v = int64Edge(g), int64Edge(g)
+			}
+			cmds = append(cmds, w.L(w.S("Zoom"), w.I(h), w.I(v)))
+			kinds["Zoom"] = true
+		default:
+			s := wd.str(g, false)
+			if g.Chance(0.2) {
+				s = malformedFor(g, 5)
+			} else if g.Chance(0.4) {
+				hh, vv := zoomPair(g, 35)
+				s = validEID(g, hh, vv).str(g, false)
+			}
+			cmds = append(cmds, w.L(w.S("Reset"), w.S(s)))
+			kinds["Reset"] = true
+		}
+	}
+	return run.Case{Prop: "C10", Fn: nSet, Args: []w.Val{cmds}, Tags: []string{"sequence", "object-setters", Tag("seqlen=%d", n), Tag("setter-kinds=%d", len(kinds))}}
 }
 
 func call(fn string, args ...w.Val) w.Val { return append(w.List{w.S(fn)}, args...) }
@@ -633,7 +805,7 @@ func init() {
 	Scale["C10"] = 12000
 	Registry["C10"] = func(r *run.Runner, g *Gen, n int) {
 		base := map[string]*run.Fn{}
-		for _, f := range []*run.Fn{fnS2E(), fnE2S(), fnRoundTrip(), fnParsePrint(), fnExpand(), fnVoxel(), fnResetSeq()} {
+		for _, f := range []*run.Fn{fnS2E(), fnE2S(), fnRoundTrip(), fnParsePrint(), fnExpand(), fnVoxel(), fnResetSeq(), fnSetters()} {
 			base[f.Name] = f
 			r.Register(primed(f))
 		}
@@ -642,10 +814,12 @@ func init() {
 			var c run.Case
 			if i%10 == 9 { // one case in ten is a short sequence of related calls
 				switch k := g.Intn(20); {
-				case k < 10:
+				case k < 8:
 					c = caseExpandSeq(g)
-				case k < 13:
+				case k < 11:
 					c = caseResetSeq(g)
+				case k < 15:
+					c = caseSetters(g)
 				default:
 					c = caseCallSeq(g)
 				}
